@@ -10,7 +10,8 @@ FC = ["-Z", "function-contracts"]
 
 VOUCHED_TIME = KaniUnit(
     crate="vouched_time",
-    attachments=[("vouched_time/src/lib.rs", os.path.join(KC, "vouched_time.rs"), "")],
+    attachments=[("vouched_time/src/lib.rs", os.path.join(KC, "vouched_time.rs"), ""),
+                 ("vouched_time/src/atomic_base_time.rs", os.path.join(KC, "atomic_base_time.rs"), "atomic_base_time")],
     kani_args=["-Z", "stubbing"],
     harnesses=[
         Harness("c14_window_full_domain", ["C14"], "VouchedTime::check_vouched_time",
@@ -23,6 +24,19 @@ VOUCHED_TIME = KaniUnit(
                 "times, voucher bits and verdicts; local over 8 listed datetimes (epoch, calendar limits, sub-ms "
                 "truncation)", kind="bounded", bound="local time over 8 listed datetimes; base, voucher, verdict complete",
                 covers=3, timeout=900),
+        Harness("c18_snapshot_with_writer_suspended_holding_lock", ["C18"], "AtomicBaseTime::snapshot",
+                "from every state a suspended writer can leave (any sequence, stable slot vouched, other slot arbitrary bits) with "
+                "the writer lock HELD forever: completes in one pass of its loop (unwinding assertion), returns the published "
+                "pair, never panics, never touches the lock", kind="proof", timeout=900, mod="atomic_base_time"),
+        Harness("c18_snapshot_lock_free", ["C18"], "AtomicBaseTime::snapshot",
+                "same, with no writer inside the critical section", kind="proof", timeout=900, mod="atomic_base_time"),
+        Harness("c18_try_update_with_lock_held", ["C18"], "AtomicBaseTime::try_update",
+                "another writer holds the lock forever: returns false without waiting; sequence unchanged", kind="proof",
+                timeout=900, mod="atomic_base_time"),
+        Harness("c18_try_update_lock_free", ["C18"], "AtomicBaseTime::try_update",
+                "lock free: applies the update iff not older than the current base time, advances the sequence by one, "
+                "releases the lock; the next snapshot returns the newest pair", kind="proof", covers=2, timeout=900,
+                mod="atomic_base_time"),
         Harness("c14_real_voucher_pins_parameters", ["C14"], "VouchedTime::check",
                 "with the real raffle code: a voucher for the base under the crate's parameters is accepted; one for "
                 "another value, another base, or other parameters is rejected", kind="proof", timeout=600),
@@ -62,13 +76,16 @@ def _c15_harnesses():
                 ": every (length, consumed prefix) pair enumerated, contents symbolic; inductive per operation => all "
                 "histories within that size",
                 covers=covers, timeout=900, mod="sliding_deque"))
-    for nm, label in (("c15_vec_container_contract", "Vec<u8>"), ("c15_smallvec_container_contract", "SmallVec<[u8;2]>")):
-        hs.append(Harness(nm, ["C15"], "impl PushTruncateContainer for " + label,
-                          "the container contract the Verus proof of SlidingDeque relies on, on the real implementation: push "
-                          "appends one element, pop removes/returns the last (None on empty), truncate(k) keeps min(k, len) "
-                          "elements, slice/slice_mut expose the contents in order and writes through slice_mut are visible",
-                          kind="bounded", bound="containers of at most {NC} elements (length enumerated, contents symbolic)",
-                          timeout=900, mod="sliding_deque"))
+    for pre, label, bnd in (("c15_vec_contract_", "Vec<u8>", "{NC}"), ("c15_smallvec_contract_", "SmallVec<[u8;2]>", "{NS}")):
+        for op, post in (("push", "push appends exactly one element"),
+                         ("pop", "pop removes and returns the last element (None and unchanged on empty)"),
+                         ("truncate", "truncate(k) keeps the first min(k, len) elements, for k = 0..len+1"),
+                         ("slice_mut", "slice / slice_mut expose the contents in order; a write through slice_mut is visible, "
+                                       "other elements and the length unchanged")):
+            hs.append(Harness(pre + op, ["C15"], "impl PushTruncateContainer for " + label,
+                              "the container contract the Verus proof of SlidingDeque relies on, on the real implementation: " + post,
+                              kind="bounded", bound="containers of at most " + bnd + " elements (length enumerated, contents symbolic)",
+                              timeout=900, mod="sliding_deque"))
     return hs
 
 
@@ -121,7 +138,8 @@ _C11 = [
             mod="encoder"),
     Harness("c11_cow_values", ["C11"], "MessageWrapper::{new_from_slice,encode}",
             "Cow values: Borrowed goes through append_borrow, Owned through append_copy; same layout and round trip",
-            kind="bounded", bound="at most {KR} pairs, values of at most {VL} bytes", covers=1, timeout=1500, mod="encoder"),
+            kind="bounded", bound="at most {KR} pairs, values of at most {VL} bytes", covers=1, timeout=1500, mod="encoder",
+            mem_gb=48),
     Harness("c11_new_from_sorted", ["C11"], "MessageWrapper::new_from_sorted",
             "rejects exactly the lists whose tags decrease somewhere; accepted lists encode in the given order",
             kind="bounded", bound=_C11_BOUND, covers=2, timeout=1500, mod="encoder"),
@@ -140,11 +158,16 @@ ROUGH_TLV = KaniUnit(
     crate="rough_tlv",
     attachments=[("rough_tlv/src/decoder.rs", os.path.join(KC, "rough_tlv_decoder.rs"), "decoder"),
                  ("rough_tlv/src/encoder.rs", os.path.join(KC, "rough_tlv_encoder.rs"), "encoder")],
-    params={"quick": {"L": 20, "U": 6, "K": 2, "KR": 1, "VL": 1, "U11": 8}, "thorough": {"L": 24, "U": 7, "K": 3, "KR": 2, "VL": 2, "U11": 12}},
+    params={"quick": {"L": 20, "U": 6, "LW": 88, "UW": 24, "K": 2, "KR": 1, "VL": 1, "U11": 8},
+            "thorough": {"L": 24, "U": 7, "LW": 136, "UW": 36, "K": 3, "KR": 2, "VL": 2, "U11": 12}},
     harnesses=_C11 + [
         Harness("c12_new_accepts_exactly", ["C12"], "MessageView::new",
                 "never panics; Ok <=> >= 4 bytes /\\ 8N <= len /\\ offsets non-decreasing /\\ tags non-decreasing "
                 "/\\ last offset inside the payload", kind="bounded", bound=_C12_BOUND, covers=7, mod="decoder"),
+        Harness("c12_new_accepts_exactly_wide", ["C12"], "MessageView::new",
+                "acceptance only, wider window: never panics; Ok <=> the format's acceptance rule, with up to LW/8 pairs in the "
+                "header", kind="bounded", bound="every byte string of length <= {LW} (N up to {LW}/8)", covers=3, timeout=1500,
+                mod="decoder"),
         Harness("c12_values_tile", ["C12"], "MessageView::get_value",
                 "on every accepted message, for every i < N: get_value(i) is the sub-slice [8N+start_i, 8N+end_i) "
                 "(pointer identity), start_0 = 0, start_{i+1} = end_i, end_{N-1} = len: the values tile the bytes "
@@ -166,7 +189,7 @@ ROUGH_TLV = KaniUnit(
 HCOBS_KANI = KaniUnit(
     crate="hcobs",
     attachments=[("hcobs/src/lib.rs", os.path.join(KC, "hcobs.rs"), "")],
-    params={"quick": {"L": 12, "U": 14}, "thorough": {"L": 24, "U": 26}},
+    params={"quick": {"L": 72, "U": 74}, "thorough": {"L": 136, "U": 138}},
     harnesses=[
         Harness("c07_constants", ["C07", "C01", "C02"], "PROD_PARAMS / RADIX / STUFF_SEQUENCE",
                 "RADIX == 253, STUFF_SEQUENCE == [FE, FD], PROD_PARAMS == (252, 253*253-1 = 64008) in the real build",
@@ -254,6 +277,23 @@ PROPERTIES["C16"] = {
         "bounded: at most M physical items (4 quick / 5 thorough), keys u8, values Option<u8>; both provided item "
         "conventions ((key, Option<value>) pairs and a SortedDequeItem with whole-item ordering); Vec backing",
         "induction over operations is a meta-argument (each operation proved from every rep_ok state within the bound)",
+    ],
+}
+
+PROPERTIES["C18"] = {
+    "level": "proof",
+    "kani_units": ["vouched_time"],
+    "verus_units": [],
+    "assumptions": [
+        "suspension points are covered as STATES: at most one writer is inside the critical section, it holds the lock, and "
+        "everything it has done so far went to the non-stable slot (then, last, to `sequence`); the harness starts from every "
+        "such state (sequence: any u64; non-stable slot: any bits; lock held or free) and runs the reader / try_update caller "
+        "alone to completion.  That writers obey this discipline is the content of C13 (not claimed)",
+        "sequential consistency at atomic-operation granularity (Kani has no threads; Release/Acquire are not modelled)",
+        "published pairs are 4 concrete vouched pairs (base times 0, 42, 1713027659000, u64::MAX): a symbolic base time makes "
+        "CBMC invert raffle's 64-bit multiplication and does not finish",
+        "std::sync::Mutex runs as real code under Kani; get_base_time_unlocked is `BASE_TIME.snapshot()` on the module's "
+        "static (one line, by inspection)",
     ],
 }
 
